@@ -149,9 +149,11 @@ fixed("FX17-length-unifyerror", ["C16", "C27"], "fd89bc6", "length(L, -1) raised
 fixed("FX18-eq-result-not-resolved", ["C14"], "a2825b1", "X = Y returned bindings that are not the mgu: a variable bound by a later argument stayed unbound in an earlier one", "r(A,B,C) :- g(f(f(A)),f(B)) = g(C,A).  gave C = f(f(f(_other)))")
 fixed("FX20-semiring-is-one", ["C12"], "9f3be78", "Semiring.is_one compared with the bound method: is_one(one()) False, default normalize(a, one()) raised OperationNotSupported", "class Mini(Semiring) with one()=1.0: Mini().is_one(1.0) is False")
 known("KF20-mpe-semiring-mode", ["C20"],
-      "mpe --use-semiring maximises only over the choices that occur in the ground program of the evidence, prints only query atoms that are plain facts ('compound queries are not supported', AD heads are dropped), reports the weight of that partial assignment, and does not notice unsatisfiable evidence; the MaxSAT mode on the same programs is correct",
+      "mpe --use-semiring maximises only over the choices that occur in the ground program of the evidence, prints only query atoms that are plain facts ('compound queries are not supported', AD heads are dropped), reports the weight of that partial assignment, and does not notice unsatisfiable evidence; the MaxSAT mode on the same programs is correct. Structural triggers: an annotated disjunction, negation (in a body or as negative evidence), or a conjunction (rule body, or the conjunction of the evidence atoms) whose parts depend on a common fact; positive AD-free programs whose conjunctions have disjoint supports are answered correctly on the pinned tree",
       "0.9::g. 0.3::c; 0.1::b. q :- g. q :- \\+b. query(g). query(c). query(b). evidence(g).  --use-semiring prints probability 0.9 and no atoms; MaxSAT mode prints g, \\+c, \\+b, 0.54",
-      match_any=[{"clause": c, "mode": "semiring"} for c in ["reported-probability", "answered-unsatisfiable-evidence", "assignment-violates-evidence", "not-most-probable", "reported-unsatisfiable"]])
+      match_any=[dict({"clause": c, "mode": "semiring"}, **trig)
+                 for c in ["reported-probability", "answered-unsatisfiable-evidence", "assignment-violates-evidence", "not-most-probable", "reported-unsatisfiable"]
+                 for trig in ({"has_ad": True}, {"negation": True}, {"conj_disjoint": False})])
 fixed("FX21-mpe-maxsat-false-evidence", ["C20"], "cfac4cc", "MaxSAT MPE printed an assignment and a probability for a model whose evidence is deterministically false", "0.2::c. q :- \\+c. q :- c. query(c). evidence(q, false).")
 known("KF21-dt-score-zero-when-no-decision-is-relevant", ["C21"],
       "when no decision fact is reached while grounding the utility atoms, dtproblog returns the empty strategy with score 0.0 ('no decisions found') instead of the expected utility of the (decision-independent) program",
